@@ -620,3 +620,51 @@ def unguarded_text_conversions(fn_node, pnames: set[str], truthiness: bool = Fal
         if not guarded(n):
             bad.append((n.lineno, what))
     return n_sites, bad
+
+
+
+class MiniEvalUnknown(Exception):
+    pass
+
+
+def mini_eval(e, env: dict):
+    """Evaluates a small pure expression on concrete stand-ins: `env` maps the source text of a sub-expression (a name, an attribute chain, a call)
+    to its value. Supports constants, conditional expressions, and / or / not, comparisons, + - * / // % ** and unary minus. Anything else raises
+    MiniEvalUnknown (the caller records the rule as undecided)."""
+    txt = ast.unparse(e)
+    if txt in env:
+        return env[txt]
+    if isinstance(e, ast.Constant):
+        return e.value
+    if isinstance(e, ast.IfExp):
+        return mini_eval(e.body if mini_eval(e.test, env) else e.orelse, env)
+    if isinstance(e, ast.BoolOp):
+        vals = [mini_eval(v, env) for v in e.values]
+        if isinstance(e.op, ast.Or):
+            return next((v for v in vals if v), vals[-1])
+        return next((v for v in vals if not v), vals[-1])
+    if isinstance(e, ast.UnaryOp):
+        v = mini_eval(e.operand, env)
+        if isinstance(e.op, ast.Not):
+            return not v
+        if isinstance(e.op, ast.USub):
+            return -v
+    if isinstance(e, ast.BinOp):
+        l, r = mini_eval(e.left, env), mini_eval(e.right, env)
+        ops = {ast.Add: lambda: l + r, ast.Sub: lambda: l - r, ast.Mult: lambda: l * r, ast.Div: lambda: l / r, ast.FloorDiv: lambda: l // r,
+               ast.Mod: lambda: l % r, ast.Pow: lambda: l ** r}
+        if type(e.op) in ops:
+            return ops[type(e.op)]()
+    if isinstance(e, ast.Compare):
+        left = mini_eval(e.left, env)
+        for op, c in zip(e.ops, e.comparators):
+            right = mini_eval(c, env)
+            res = {ast.Eq: lambda: left == right, ast.NotEq: lambda: left != right, ast.Lt: lambda: left < right, ast.LtE: lambda: left <= right,
+                   ast.Gt: lambda: left > right, ast.GtE: lambda: left >= right, ast.Is: lambda: left is right, ast.IsNot: lambda: left is not right}.get(type(op))
+            if res is None:
+                raise MiniEvalUnknown(txt[:60])
+            if not res():
+                return False
+            left = right
+        return True
+    raise MiniEvalUnknown(txt[:60])
